@@ -158,8 +158,8 @@ def examine(prop, r, mobs, mbits):
                 bad = pbit == "0" or (sbit == "0" and fixed)
                 if len(g) >= 9:
                     names = ["slot", "phase", "lost", "registries", "life-cycle", "map-books", "accounting", "flush", "wake-up",
-                             "cancelled-spawners-stopped", "snapshot-kept", "snapshot-taken", "want", "sched", "seal", "end-filed", "emptied", "elements"]
-                    for idx in (3, 4, 5, 6, 7, 9, 10, 11, 12, 13, 17):
+                             "cancelled-spawners-stopped", "snapshot-kept", "snapshot-taken", "want", "sched", "seal", "end-filed", "emptied", "elements", "blame"]
+                    for idx in (3, 4, 5, 6, 7, 9, 10, 11, 12, 13, 17, 18):
                         if idx < len(g) and g[idx] == "0":
                             bad = True
                     if g[8] == "0" and fixed:
